@@ -1392,7 +1392,7 @@ pub fn run(ctx: &Ctx, property: &'static str) -> Report {
     let shapes = r["shapes"].as_u64().unwrap_or(COINBASE_SHAPES.len() as u64) as usize;
     let layout = Layout { l: 2, slots: 2, templates, shapes };
     let mut w = Worker::new(0, "regtest", base);
-    let e = exec(&mut w, &cfg, &layout, 110, &choices, events);
+    let e = exec_mode(&mut w, &cfg, &layout, 110, &choices, events, r["batch"].as_bool().unwrap_or(false));
     println!("replay history: {}", e.rendered);
     for (p, c, what) in &e.violations {
       println!("  [{p}] {c}: {what}");
@@ -1407,14 +1407,15 @@ pub fn run(ctx: &Ctx, property: &'static str) -> Report {
     return report;
   }
 
-  let budget_total: u64 = if ctx.thorough() { 2400 } else { 50 };
+  let budget_total: u64 = if ctx.thorough() { 3600 } else { 50 };
   let mut all_states: BTreeSet<String> = BTreeSet::new();
   let mut exhaustive = true;
   let mut traces = 0;
   // stage A: all single deviations over the full alphabet; stage B: pairs (core alphabet in quick tier)
-  let stages: Vec<(usize, usize)> = if ctx.thorough() { vec![(0, 3)] } else { vec![(0, 1), (2, 2)] };
+  // (k_min, k_max, one update() for all blocks)
+  let stages: Vec<(usize, usize, bool)> = if ctx.thorough() { vec![(1, 2, true), (0, 3, false)] } else { vec![(0, 1, false), (2, 2, false)] };
   for v in VARIANTS {
-    for (kmin, kmax) in &stages {
+    for (kmin, kmax, batch) in &stages {
       let layout = layout_for(ctx, *kmax);
       let spec = RunSpec {
         property,
@@ -1426,18 +1427,19 @@ pub fn run(ctx: &Ctx, property: &'static str) -> Report {
         budget_secs: budget_total / (VARIANTS.len() as u64 * stages.len() as u64),
       };
       let mut sub = Report::new(property, &ctx.tier, "model_checking");
-      let totals: Totals = run_histories(&spec, &mut sub, |id| Worker::new(id, v.chain, v.base), |w, c| exec(w, &cfg, &layout, v.jubilee, c, events));
+      let totals: Totals = run_histories(&spec, &mut sub, |id| Worker::new(id, v.chain, v.base), |w, c| exec_mode(w, &cfg, &layout, v.jubilee, c, events, *batch));
       // carry replay parameters
       for mut viol in sub.violations.drain(..) {
         viol.replay["base"] = json!(v.base);
         viol.replay["templates"] = json!(layout.templates);
         viol.replay["shapes"] = json!(layout.shapes);
+        viol.replay["batch"] = json!(*batch);
         report.violations.push(viol);
       }
       for s in sub.samples.drain(..) {
         report.sample(s);
       }
-      let tag = format!("inscriptions.{}-base{}.k{}", v.chain, v.base, kmax);
+      let tag = format!("inscriptions.{}-base{}.k{}{}", v.chain, v.base, kmax, if *batch { ".one-update" } else { "" });
       fold_totals(&mut report, &tag, &totals, *kmax);
       all_states.extend(totals.states.iter().cloned());
       traces += totals.executions;
